@@ -703,9 +703,11 @@ func buildPreservationSet(files []parsedFile, cfg *Config) *preservationSet {
 func preservePackageSurfaceSymbols(files []parsedFile, cfg *Config, protected *preservationSet) {
 	qualifiedRefs := make(map[string]bool)
 	sessionExports := make(map[string]bool)
+	definitions := make(map[string]int)
 	for i := range files {
 		recordFileQualifiedReferences(files[i].exprs, qualifiedRefs)
 		recordFileExports(files[i].exprs, sessionExports)
+		recordFileDefinitions(files[i].exprs, cfg, definitions)
 	}
 	keepExports := cfg == nil || !cfg.RenameExports
 	for i := range files {
@@ -743,6 +745,15 @@ func preservePackageSurfaceSymbols(files []parsedFile, cfg *Config, protected *p
 					if keepExports && sessionExports[key] {
 						preserveNodeSymbol(files[i].analysis, expr.Cells[1], protected)
 					}
+					// A name the session defines more than once (redefined
+					// later in the file or in a later file, or replaced by a
+					// set) is several symbols to the analysis, which resolves
+					// every reference to the last of them: renaming each
+					// definition on its own leaves calls pointing at a name
+					// that is not bound yet, or at the wrong definition.
+					if definitions[key] > 1 {
+						preserveNodeSymbol(files[i].analysis, expr.Cells[1], protected)
+					}
 				}
 			default:
 				if node := configuredTopLevelNameNode(expr, cfg); node != nil {
@@ -753,6 +764,9 @@ func preservePackageSurfaceSymbols(files []parsedFile, cfg *Config, protected *p
 					if keepExports && sessionExports[key] {
 						preserveNodeSymbol(files[i].analysis, node, protected)
 					}
+					if definitions[key] > 1 {
+						preserveNodeSymbol(files[i].analysis, node, protected)
+					}
 				}
 			}
 			if expr.Cells[0].Str == "set" && len(expr.Cells) > 1 {
@@ -761,6 +775,38 @@ func preservePackageSurfaceSymbols(files []parsedFile, cfg *Config, protected *p
 				}
 			}
 			preserveConfiguredPackageSurfaceSymbol(files[i].analysis, expr, cfg, protected)
+		}
+	}
+}
+
+// recordFileDefinitions counts, per "pkg/name", the top-level forms of the file
+// that define the name: defun, defmacro, deftype, set and the configured
+// definition forms.
+func recordFileDefinitions(exprs []*lisp.LVal, cfg *Config, counts map[string]int) {
+	currentPkg := "user"
+	for _, expr := range exprs {
+		if expr.Type != lisp.LSExpr || expr.IsQuoted() || len(expr.Cells) == 0 || expr.Cells[0].Type != lisp.LSymbol {
+			continue
+		}
+		switch expr.Cells[0].Str {
+		case "in-package":
+			if pkg := packageName(expr.Cells[1:]); pkg != "" {
+				currentPkg = pkg
+			}
+		case "defun", "defmacro", "deftype":
+			if len(expr.Cells) > 1 && expr.Cells[1].Type == lisp.LSymbol {
+				counts[currentPkg+"/"+expr.Cells[1].Str]++
+			}
+		case "set":
+			if len(expr.Cells) > 1 {
+				if name := setName(expr.Cells[1]); name != "" {
+					counts[currentPkg+"/"+name]++
+				}
+			}
+		default:
+			if node := configuredTopLevelNameNode(expr, cfg); node != nil {
+				counts[currentPkg+"/"+node.Str]++
+			}
 		}
 	}
 }
